@@ -136,11 +136,16 @@ def record_trace(expr):
 # programs
 # ------------------------------------------------------------------------------------------------
 
+_ROOT = [None]
+
+
 def s_expr(f, e):
-    """series/scalar expression over frame f (pandas or dask)"""
+    """series/scalar expression over frame f (pandas or dask); `rootcol` reads a column of the program's ROOT frame"""
     k = e[0]
     if k == "col":
         return f[e[1]]
+    if k == "rootcol":
+        return _ROOT[0][e[1]]
     if k == "lit":
         return e[1]
     if k == "not":
@@ -156,6 +161,7 @@ def s_expr(f, e):
 
 
 def run_program(f, prog):
+    _ROOT[0] = f
     for st in prog:
         if st[0] == "sel":
             f = f[st[1]]
@@ -429,6 +435,58 @@ def gen_prog(rng, names, nsteps):
     return prog
 
 
+def gen_assign_chain(rng, names):
+    """assign / select-a-list / re-assign chains of length 3-5: re-assigning KEPT columns, DROPPED columns and NEW columns,
+    with values that read original columns (of the current frame or of the root) or previously assigned ones"""
+    prog, cur, assigned = [], list(names), []
+    length = rng.randint(3, 5)
+    fresh = iter(["x", "y", "z", "w", "v"])
+
+    def value(allow_assigned):
+        pool = [c for c in cur if allow_assigned or c not in assigned] or cur
+        t = rng.random()
+        if t < 0.25:
+            return ["add", ["rootcol", rng.choice(names)], ["lit", rng.randint(-1, 2)]]
+        if t < 0.45:
+            return ["mul", ["rootcol", rng.choice(names)], ["lit", 2]]
+        a = ["col", rng.choice(pool)]
+        return rng.choice([["add", a, ["lit", 1]], ["mul", a, ["lit", 2]], ["sub", a, ["col", rng.choice(pool)]], a])
+    # 1. an assign of a new column
+    x = next(fresh)
+    prog.append(["assign", x, value(False)])
+    cur.append(x); assigned.append(x)
+    while len(prog) < length:
+        last = prog[-1][0]
+        if last == "assign" and rng.random() < 0.7:
+            # select a LIST: keep or drop the assigned column(s)
+            keep_assigned = rng.random() < 0.7
+            others = [c for c in cur if c not in assigned]
+            sel = rng.sample(others, rng.randint(1, len(others))) if others else []
+            if keep_assigned:
+                sel = sel + [c for c in assigned if c in cur]
+            rng.shuffle(sel)
+            if not sel:
+                sel = [cur[0]]
+            prog.append(["sel", sel])
+            cur = list(sel)
+        else:
+            t = rng.random()
+            if t < 0.45 and any(c in cur for c in assigned):
+                target = rng.choice([c for c in assigned if c in cur])        # re-assign a KEPT assigned column
+            elif t < 0.6 and any(c not in cur for c in assigned):
+                target = rng.choice([c for c in assigned if c not in cur])    # re-create a DROPPED column
+            elif t < 0.8:
+                target = rng.choice(cur)                                      # overwrite any current column
+            else:
+                target = next(fresh)
+            prog.append(["assign", target, value(rng.random() < 0.4)])
+            if target not in cur:
+                cur.append(target)
+            if target not in assigned:
+                assigned.append(target)
+    return prog
+
+
 def gen_frame(rng):
     n = rng.randint(0, 10)
     ncols = rng.randint(2, 4)
@@ -446,7 +504,7 @@ def generate(ctx):
     rng = ctx.rng
     for _ in range(ctx.n(170, 2500)):
         inp, names = gen_frame(rng)
-        inp["prog"] = gen_prog(rng, names, rng.randint(1, 5))
+        inp["prog"] = gen_assign_chain(rng, names) if rng.random() < 0.3 else gen_prog(rng, names, rng.randint(1, 5))
         inp["parts"] = rng.random() < 0.7
         yield "trace", inp
     shapes = ["reduction-in-predicate", "two-consumers", "shared-filter", "sum-of-filtered-projection", "diamond", "count",
